@@ -163,6 +163,55 @@ func runC03(args []string) int {
 			r.sample(map[string]interface{}{"stream": s.specArgs(), "decoded": fmt.Sprintf("%.300s", impl.observable())})
 		}
 	}
+	// --- pairs of files in a FRESH process: a stream that re-types itself from Y to X (second file_id), then an
+	// ordinary X file.  What the second Decode returns must be what the model returns for it alone: nothing a file
+	// does to its own FileId.Type may change how later files of that type are routed (a per-type cache filled on
+	// first use would be such a thing; in this long-lived process every type has been seen long before).
+	npairs := 24
+	if o.tier == "thorough" {
+		npairs = 600
+	}
+	npairs *= o.boost
+	for i := 0; i < npairs; i++ {
+		y := p.validFts[rg.intn(len(p.validFts))]
+		x := p.validFts[rg.intn(len(p.validFts))]
+		mk := func(ft byte, n int) *stream {
+			c := defaultCfg()
+			c.maxRecords, c.illFormed, c.secondFid, c.unknownMsg, c.dev, c.compressed, c.fileType = n, 0, 0, 0, 0, 0, int(ft)
+			c.msgFilter = func(num uint16) bool { return num != uint16(fit.MesgNumRecord) }
+			return genStream(rg, &c, st)
+		}
+		s1, s1b, s2 := mk(y, 4), mk(x, 6), mk(x, 30)
+		cfgF := defaultCfg()
+		d2, m2 := fileIdRecords(rg, &cfgF, st, x)
+		s1.Records = append(append(s1.Records, d2, m2), s1b.Records...)
+		s1.fillHex()
+		b1, b2 := s1.bytes(), s2.bytes()
+		out, err := c08RunChild([]c08Call{
+			{Entry: "D", In: c08Input{ID: "retyped", Kind: "stream", Hex: hexs(b1)}},
+			{Entry: "D", In: c08Input{ID: "ordinary", Kind: "stream", Hex: hexs(b2)}}})
+		if err != nil || len(out) != 2 {
+			fmt.Println("fresh-process pair: child failed:", err)
+			return 2
+		}
+		impl2, model2, err := w.decode("D", optSet{}, readerSpec{Data: b2})
+		if err != nil {
+			fmt.Println("driver:", err)
+			return 2
+		}
+		got := out[1].Main
+		if k := strings.Index(got, " shape="); k >= 0 {
+			got = got[:k]
+		}
+		r.Traces++
+		r.count(fmt.Sprintf("pair%x|%x", b1, b2), impl2.ErrClass == 0)
+		r.hist("fresh_process_pairs")
+		if maskAccumText(got) != maskAccumText(model2.observable()) {
+			r.specFail("routing_after_retyped_file", fmt.Sprintf("in a fresh process, after decoding a stream that re-types itself from file type %d to %d, Decode of an ordinary file of type %d returns something else than it does alone\n    after : %.300s\n    alone : %.300s",
+				y, x, x, diffAt(got, model2.observable()), diffAt(model2.observable(), got)),
+				map[string]interface{}{"entry": "Decode, Decode (fresh process)", "first_input_hex": hexs(b1), "second_input_hex": hexs(b2), "first_types": []int{int(y), int(x)}})
+		}
+	}
 	// (the direct add sequences run AFTER the streams: they call the real expandComponents, which moves the
 	// library's process-wide accumulators behind the back of the model's mirror in world)
 	// --- direct add sequences
